@@ -8,7 +8,8 @@
    ChunkLinearization itself IS modelled (Lin.chunking, compared output-for-output with the real one)
    and its result is characterised for every in-range input. *)
 From Coq Require Import QArith.
-From BV Require Import lib.Ints model.Fee model.Lin proofs.FeeLemmas proofs.FeeChunkLemmas proofs.LinLemmas proofs.LinDiagramLemmas.
+From Coq Require Import Permutation.
+From BV Require Import lib.Ints model.Fee model.Lin model.LinPost proofs.LinPostLemmas proofs.FeeLemmas proofs.FeeChunkLemmas proofs.LinLemmas proofs.LinDiagramLemmas.
 Local Open Scope Z_scope.
 
 (* ---- ChunkLinearization ------------------------------------------------------------------------ *)
@@ -78,6 +79,16 @@ Theorem C24_chunking_info_feerates : forall (fr : list (Z * Z)) lin,
 Proof. intros. apply chunking_info_snd. Qed.
 Print Assumptions C24_chunking_info_feerates.
 
+(* ---- PostLinearize (model LinPost.post_linearize, compared output-for-output with the real one) ------ *)
+(* for every cluster, fee assignment and input order: the result is a rearrangement of the input, and a
+   linearization whenever the input is one (a group is only moved in front of a group none of whose
+   members it depends on) *)
+Theorem C24_post_linearize_perm_topo : forall n deps fr lin,
+  Permutation (post_linearize n deps fr lin) lin /\
+  (topo_valid n deps lin -> topo_valid n deps (post_linearize n deps fr lin)).
+Proof. intros. split; [apply post_linearize_perm | apply post_linearize_topo]. Qed.
+Print Assumptions C24_post_linearize_perm_topo.
+
 (* non-vacuity: a 4-transaction diamond (0 -> 1, 0 -> 2, 1 -> 3, 2 -> 3) *)
 Example C24_nonvacuous :
   let fr := [(1, 2); (8, 2); (2, 2); (9, 1)] in
@@ -89,6 +100,7 @@ Example C24_nonvacuous :
   dominates_all_topo 4 fr deps [0; 1; 2; 3]%nat = true /\
   length (all_topo_orders 4 deps) = 2%nat /\
   chunks_connected fr deps [0; 1; 2; 3]%nat = true /\
+  post_linearize 4 deps fr [0; 2; 1; 3]%nat = [0; 1; 2; 3]%nat /\
   is_connected deps [1; 2]%nat = false.
 Proof. vm_compute. repeat split. Qed.
 
